@@ -77,7 +77,21 @@ type Fn struct {
 var canonNames = map[string]string{}
 var canonUsed = map[string]bool{}
 
+// localType marks the storage of a local variable whose address never leaves its function (only loaded, stored and
+// field/element-addressed): it gets heap families of its own, so that writing the local does not appear as a store
+// in the families of the heap objects of the same type (reads of those then keep their syntactic shape).
+type localType struct {
+	T   types.Type
+	Tag string
+}
+
+func (l *localType) Underlying() types.Type { return l.T.Underlying() }
+func (l *localType) String() string         { return "local:" + l.Tag + ":" + l.T.String() }
+
 func canon(t types.Type) string {
+	if lt, ok := t.(*localType); ok {
+		return "L" + lt.Tag + "." + canon(lt.T)
+	}
 	u := t.Underlying()
 	key := types.TypeString(u, nil)
 	if n, ok := canonNames[key]; ok {
@@ -171,6 +185,9 @@ func intRange(b *types.Basic) *interval {
 var bvMode bool
 
 func scalarSort(t types.Type) (string, *interval, bool) {
+	if lt, ok := t.(*localType); ok {
+		return scalarSort(lt.T)
+	}
 	if isOpaque(t) {
 		return SInt, nil, true
 	}
